@@ -325,6 +325,41 @@ static void float_texts_sweep(int shard, int nshards) {
   }
 }
 
+// repeated options of which a LATER instance does not parse: get_multi<int> fails part-way, and whatever it had not read
+// is still unread for assert_none_unused (deterministic mini histories)
+static void multi_partial_sweep(int shard, int nshards) {
+  static const vector<vector<string>> LISTS = {{"--n=1", "--n=x", "--n=3"}, {"--n=1", "--n=2", "--n=99999999999"}, {"--n=7", "--n="},
+      {"--n=1", "--n=2", "--n=3"}, {"--n=x", "--n=1"}, {"--n=1", "pos", "--n=2x", "--b=4"}, {"--n=0x10", "--n=077", "--n=8z"}};
+  for (size_t i = 0; i < LISTS.size(); i++) {
+    if ((int)(i % nshards) != shard) continue;
+    for (int fmt = 0; fmt < 2; fmt++) {
+      tr.emit("{\"e\":\"Reset\"}");
+      tr.histories++;
+      Arguments a(LISTS[i]);
+      vector<string> pos;
+      for (auto& p : a.positional) pos.push_back(p.text);
+      vt::J j0;
+      j0.str("e", "new").raw("tokens", jlist(LISTS[i])).raw("pos", jlist(pos)).raw("named", dump_named(a, false));
+      tr.emit(j0);
+      vector<int32_t> ret;
+      string out = guarded([&] { ret = a.get_multi<int32_t>("n", (Arguments::IntFormat)fmt); });
+      string rs = "[";
+      for (size_t k = 0; k < ret.size(); k++) rs += (k ? "," : "") + vt::J::arr_u64((uint32_t)ret[k], 4);
+      rs += "]";
+      vt::J j;
+      j.str("e", "mint").raw("name", js("n")).str("fmt", FMT_NAMES[fmt]).num("bits", 32).num("signed", 1);
+      j.str("out", out).raw("ret", rs);
+      add_flags(j, a);
+      tr.emit(j);
+      string out2 = guarded([&] { a.assert_none_unused(); });
+      vt::J k;
+      k.str("e", "unused").str("out", out2);
+      tr.emit(k);
+      tr.nontrivial("mpartial" + out + out2);
+    }
+  }
+}
+
 // ---------------------------------------------------------------- integer text sweeps
 template <typename T>
 static void int_batch(const vector<string>& texts, int fmt) {
@@ -413,6 +448,7 @@ int main(int argc, char** argv) {
     tr.emit("{\"e\":\"Reset\"}");
     tr.histories++;
     float_texts_sweep(shard, nshards);
+    multi_partial_sweep(shard, nshards);
     // malformed and boundary texts first (some set errno = ERANGE), then the valid sweeps
     all_types(boundary_texts());
     const long CH = 500;
